@@ -88,9 +88,14 @@ class BackwardAnalysis(Generic[T], Analysis[T], ABC):
         Returns a mapping from basic blocks to lattice values at the start of each BB.
         """
         vals_before = {bb: self.initial() for bb in bbs}
-        queue = set(bbs)
+        # The work list is an insertion-ordered dict rather than a set of BBs: analyses
+        # like `LivenessAnalysis` store more than what `eq` compares (a witness BB and
+        # the order of the variables), so the result depends on the visit order. BBs are
+        # hashed by identity, so the iteration order of a set changes between runs.
+        queue = dict.fromkeys(bbs)
         while len(queue) > 0:
-            bb = queue.pop()
+            bb = next(iter(queue))
+            del queue[bb]
             succs = (
                 bb.successors + bb.dummy_successors
                 if self.include_unreachable()
@@ -100,11 +105,11 @@ class BackwardAnalysis(Generic[T], Analysis[T], ABC):
             val_before = self.apply_bb(val_after, bb)
             if not self.eq(vals_before[bb], val_before):
                 vals_before[bb] = val_before
-                queue.update(bb.predecessors)
+                queue.update(dict.fromkeys(bb.predecessors))
                 # Values also flow along dummy edges when unreachable code is included,
                 # so the dummy predecessors read `vals_before[bb]` and must be revisited
                 if self.include_unreachable():
-                    queue.update(bb.dummy_predecessors)
+                    queue.update(dict.fromkeys(bb.dummy_predecessors))
         return vals_before
 
 
